@@ -115,6 +115,7 @@ type Machine struct {
 	orderBudget int
 	orderLight  bool
 	allocElems  int
+	goroutines  int
 	onceDone    map[*value]bool
 	orderGlobal int
 	cyclicSeen  bool
